@@ -344,7 +344,7 @@ func cmdCheck(args []string) int {
 				defer swg.Done()
 				to := timeout
 				if cover {
-					to = 10 * time.Second
+					to = 6 * time.Second
 				}
 				res := solveObl(fname, caseFiles, to)
 				mu.Lock()
@@ -457,8 +457,31 @@ func cmdCheck(args []string) int {
 	byBackend := map[string]int{}
 	var samples []interface{}
 	replayDir := filepath.Join(verifDir, "replays", *prop)
+	beforeCall := map[string]string{}
 	for _, o := range outs {
 		solverSecs += o.Seconds
+		if o.Kind == "cover" && strings.HasPrefix(o.Name, "cover:before-call(") {
+			// reachability of a call site: only the reference point for the
+			// after-call cover that follows it
+			beforeCall[o.Function+"|"+strings.TrimPrefix(o.Name, "cover:before-call")] = o.Status
+			continue
+		}
+		if o.Kind == "cover" && strings.HasPrefix(o.Name, "cover:after-call(") {
+			covers++
+			b := beforeCall[o.Function+"|"+strings.TrimPrefix(o.Name, "cover:after-call")]
+			if o.Status == "unsat" && b == "sat" {
+				fmt.Printf("VACUOUS property=%s function=%s: %s: the assumed postconditions contradict the state at a reachable call site\n", *prop, o.Function, o.Name)
+				undecided = append(undecided, o.Function+": contradictory callee postconditions ("+o.Name+")")
+				violations++
+				os.MkdirAll(replayDir, 0o755)
+				path := filepath.Join(replayDir, sanitizeFile(o.Function+"__vacuous_call")+".json")
+				writeJSON(path, map[string]interface{}{"property": *prop, "function": o.Function, "obligation": o.Name, "reason": "contradictory callee postconditions at a reachable call site"})
+				fmt.Printf("VIOLATION property=%s replay=%s no-failing-input-found\n", *prop, path)
+			} else {
+				coversOK++
+			}
+			continue
+		}
 		if o.Kind == "cover" {
 			covers++
 			// a cover must be satisfiable (or at least not refuted)
